@@ -22,24 +22,36 @@ import secsm
 from common import hx
 
 ID = "C14"
-GENS = ["c13_chain", "c14_handlers"]
+GENS = ["c13_chain", "c14_handlers", "c14_partial"]
 PROOF = "Gallia.Proofs.C14"
 DRIVER = "c14"
 ORACLE = False
 ASSUMPTIONS = [
     "\"does not raise\" is a statement about Python exceptions: the Lean model only has the three exceptions the rule "
     "chain can raise (two asserts, one index error) as outcomes; every other exception is excluded by the tie (any "
-    "exception out of handle_request on a generated history is a violation), not by a theorem",
+    "exception out of handle_request on a generated history is a violation), not by a theorem. The connection loop "
+    "around it (handle_client: readline, decode, unhexlify, handle_request, write, the except arm, the two breaks, the "
+    "division after the loop) is modelled with its exceptions (Model/VEcuConn.lean) and what ends it is proved exactly "
+    "(conn_end_exact)",
+    "connection level: writer.write / drain do not raise while the peer is connected (a reset by the peer is the fourth "
+    "way the loop can end and is outside the property); what the runtime does with the socket after handle_client "
+    "returned or raised is not modelled (the client then just sees no further line); the client is "
+    "LinesTransportMixin.write / read + helpers.parse_pdu, which is UDSClient.request_unsafe with max_retry 0 for an ECU "
+    "that never answers busyRepeatRequest / responsePending (the vECU has neither code: handler_negatives_accepted and "
+    "the chain's NRCs); the client's read decodes UTF-8 where the model takes ASCII - equal on everything hexlify emits",
     "the random decisions of a handler call enter the model as a per-request oracle (random_bool results, randint(0,255) "
     "bytes, int(expovariate + 0.5) lengths, DTC draws); the theorems hold for every oracle, the tie records the real draws",
     "request parsing is C01's parser model (decode), response parsing C02's (decodeResp), the client's acceptance test "
     "C03's (parsePdu); their agreement with gallia's codec is the subject of C01-C03 and is re-checked here on every "
     "compared exchange through the outputs (raw bit, reply bytes, client verdict)",
-    "empty requests are outside the property (request.service_id raises IndexError on b'')",
+    "empty requests are outside the property (request.service_id raises IndexError on b''); as events of a connection "
+    "they are modelled: an empty or all-whitespace line ends the loop with IndexError, like a non-hex / odd-length / "
+    "non-ASCII line ends it with binascii.Error / UnicodeDecodeError (conn_end_exact; compared with the real loop)",
     "session identifiers < 128 (ModelOK, proved for every model randomize() can build): to_bytes(session, 1) and the "
     "sub-function byte of the DiagnosticSessionControl reply cannot overflow",
-    "one connection, requests handled one after the other (handle_client awaits each request); asyncio.StreamReader / "
-    "StreamWriter by contract",
+    "one connection, requests handled one after the other (handle_client awaits each request; the client sends the next "
+    "request only after its read returned or timed out); asyncio.StreamReader / StreamWriter by contract (readline "
+    "returns through the first newline; an unterminated tail only at end of stream)",
     "reply_length_bounds assumes random_payload length <= 4090 and DTC count <= 1023 for the handler call; the code draws "
     "both from expovariate (53-bit random(): at most ~294 for the payload, ~1837 for the DTC count), so a reply longer than "
     "4095 bytes needs a DTC-count draw above 1023 (probability ~1e-9 per call) - not excluded by the code, not a clause of "
@@ -573,7 +585,7 @@ class Runner:
 
 # ------------------------------------------------------------------------------------------------------------------
 # -- 6. whole connections -------------------------------------------------------------------------------------------------
-LOWER_HEX = set(b"0123456789abcdef")
+HEX_DIGITS = set(b"0123456789abcdefABCDEF")  # what the client's unhexlify takes; the model (and the tie) say lower case
 
 
 def odd_lines(rng, real):
@@ -614,7 +626,7 @@ def conn_clauses(o, requests_only):
         out.append(("left-sessions", "session-not-offered"))
     w = o["written"]
     if w:
-        if not (w.endswith(b"\n") and w.count(b"\n") == 1 and set(w[:-1]) <= LOWER_HEX and len(w) % 2 == 1 and len(w) > 1):
+        if not (w.endswith(b"\n") and w.count(b"\n") == 1 and set(w[:-1]) <= HEX_DIGITS and len(w) % 2 == 1 and len(w) > 1):
             out.append(("reply-line-malformed", "line"))
         elif o["verdict"] != "accepted":
             out.append(("client-refuses", o["verdict"]))
@@ -690,10 +702,20 @@ def run_connections(ctx, rn, reals, names):
         makers = ctor_makers(rng, real)
         plans = [(ctx.pick(40, 150), False)] * ctx.pick(2, 5) + [(ctx.pick(25, 60), True)] * ctx.pick(6, 20)
         plans += [(0, False), (1, False)]
+        # directed: connections whose every reply is suppressed (TesterPresent, a session change, a reset with the suppress bit)
+        sup = [{"adv": 1, "dur": 0, "pdu": "3e80"}]
+        for sess in list(real.server.services.get(1, {}).get(0x10) or [])[:2]:
+            sup.append({"adv": 1, "dur": 1, "pdu": bytes([0x10, 0x80 | int(sess)]).hex()})
+        for rt in list(real.server.services.get(1, {}).get(0x11) or [])[:1]:
+            sup.append({"adv": 1, "dur": 0, "pdu": bytes([0x11, 0x80 | int(rt)]).hex()})
+        plans += [("script", [dict(x)]) for x in sup] + [("script", [dict(x) for x in sup]), ("script", [dict(sup[0]), {"adv": 1, "dur": 0, "pdu": "3e00"}])]
         for n, mixed in plans:
-            script = conn_script(rng, real, makers, names, n, mixed)
-            if n == 0 and rng.random() < 0.5:
-                script = [{"adv": 1, "dur": 0, "line": odd_lines(rng, real).hex()}]
+            if n == "script":
+                script = mixed
+            else:
+                script = conn_script(rng, real, makers, names, n, mixed)
+                if n == 0 and rng.random() < 0.5:
+                    script = [{"adv": 1, "dur": 0, "line": odd_lines(rng, real).hex()}]
             try:
                 idx, sig, spec, impl, model, obs, end = conn_compare(ctx, real, script)
             except Exception as e:  # noqa: BLE001
@@ -797,6 +819,9 @@ def _run(ctx, env, rn):
                      "gallia has request classes the structured generator does not build: " + ", ".join(sorted(set(names) - covered)),
                      {"classes": sorted(set(names) - covered)}, spec_violated=False, site="harness/props/C14.py ctor_makers")
     names = sorted(covered & set(names))
+
+    # 0. whole connections with the real client on the other end against Model/VEcuConn.lean (first: independent of the parts below)
+    run_connections(ctx, rn, reals, names)
 
     # 1. random histories up to N requests (mixed: random bytes, sid + payload, session changes, seed/key dialogues,
     #    known services, constructor requests; idle gaps around the 10 s inactivity limit)
@@ -968,8 +993,6 @@ def _run(ctx, env, rn):
                          f"during a history that handle_request survives: {impl}", rn.case_of(real, items), impl=impl,
                          model="connection stays open", spec_violated=True, site="TCPUDSServerTransport.handle_client")
     rn.flush()
-    # 6. whole connections with the real client on the other end against Model/VEcuConn.lean
-    run_connections(ctx, rn, reals, names)
     if reals:
         ctx.sample({"model": reals[0].spec[:300], "example": "sreq 1 none none 1 22f190 1 0 3 aabb 0 -"})
 
@@ -1032,16 +1055,36 @@ MANIFEST = {
                    "the real RandomUDSServer behind UDSServerTransport.handle_request / TCPUDSServerTransport.handle_client "
                    "with recorded RNG draws and the real helpers.parse_pdu on every reply, incl. all request sequences over 10 / 12 "
                    "request kinds of the security state machine up to length 5 / 3 (6 / 5 thorough) with scripted start / end "
-                   "clock reads, compared state by state and reply by reply (harness/secsm.py)."),
+                   "clock reads, compared state by state and reply by reply (harness/secsm.py). "
+                   "Whole connections (Model/VEcuConn.lean): TCPUDSServerTransport.handle_client - readline, ASCII decode + strip, "
+                   "unhexlify, handle_request, reply line or nothing, the except arm, both breaks, the division after the loop - "
+                   "composed with the vECU model on one side and C19's line layer + parsePdu on the other. For every ModelOK model "
+                   "(every model randomize() builds), every oracle, every event history: the loop has ended iff the history contains "
+                   "end of stream, a line that is not even-length ASCII hex, or an empty request, and the recorded cause is that of "
+                   "the first such event (conn_end_exact) - so after any history of non-empty requests it is still serving, has "
+                   "counted every one of them and the session is offered (conn_never_ends, conn_served_all); what it writes per "
+                   "request is nothing or exactly hexlify(reply) + newline - lower-case hex, no inner newline - which the client's "
+                   "read() decodes back to the reply bytes leaving exactly what followed (conn_reply_line_wellformed); one "
+                   "client.request between quiet points returns the decoded reply of that very request, accepted for every request "
+                   "object with those bytes, or times out having consumed nothing because that very reply was suppressed, and "
+                   "leaves both streams empty (conn_exchange_accepted); hence after any history - in particular after a suppressed "
+                   "reply - nothing is left that a later request could take for its answer (conn_history_quiet, "
+                   "conn_no_stale_after_suppress); the exchange view and the event view are the same loop "
+                   "(conn_exchanges_are_events). Tied by whole connections against the real handle_client with the real "
+                   "TCPLinesTransport + UDSClient.request_unsafe on the other end under virtual time: per exchange the bytes "
+                   "written, the client's verdict and returned PDU, session / security state, last_time_active, loop alive, both "
+                   "stream buffers; foreign lines of 16 kinds; the peer's close and the loop's epilogue."),
     "level_note": ("Partial: \"neither raises nor drops the connection\" is a statement about Python exceptions; the model has "
-                   "only the chain's own three exception sites as outcomes (proved unreachable), every other exception is "
+                   "the chain's own three exception sites (proved unreachable) and the connection loop's exceptions (decode, unhexlify, "
+                   "whatever handle_request raises, the division after the loop; what ends the loop is proved exactly) as outcomes; "
+                   "every other exception inside a handler or a response's pdu property is "
                    "excluded by the correspondence run only (random histories up to N = 200, all one- and two-byte requests, "
                    "all sub-function bytes, every request class, seed/key dialogues, every session, boundary lengths, "
                    "handle_client on in-memory streams). Trusted: Lean kernel (propext, Quot.sound, Classical.choice), the "
-                   "translators gen/c13_chain.py and gen/c14_handlers.py, the harness incl. its RNG recorder. Modelled rather "
+                   "translators gen/c13_chain.py and gen/c14_handlers.py, the harness incl. its RNG recorder and in-memory stream pair. Modelled rather "
                    "than verified: all Python code; request parsing, response parsing and the client's matcher are the C01 / "
                    "C02 / C03 models (tied to gallia by those properties and re-checked here through the outputs); the "
                    "random number generator is an oracle; asyncio streams by contract; one connection at a time."),
-    "technique": "Lean 4 proof (composition of the C13 chain, C01/C02 codecs and C03 matcher models; case analysis over request kinds; induction over histories; refinement of C16's randomize model to the hypotheses) + regenerated tables + differential correspondence with recorded randomness against the real virtual ECU and the real client-side acceptance test",
+    "technique": "Lean 4 proof (composition of the C13 chain, C01/C02 codecs and C03 matcher models; case analysis over request kinds; induction over histories and over connection event sequences; invariant of the composed client / loop / vECU system; refinement of C16's randomize model to the hypotheses) + regenerated tables + differential correspondence with recorded randomness against the real virtual ECU and the real client-side acceptance test",
     "design_ref": "DESIGN.md section 7, C14",
 }
